@@ -615,3 +615,26 @@ Proof.
   - exact (inv_inj _ _ _ _ _ I1).
   - exact (inv_fun _ _ _ _ _ I1).
 Qed.
+
+(* the same with the decoder state exposed (for the composition with the callback pass) *)
+Theorem roundtrip_graph_st fl C h r rk limit :
+  fx_action fl = true -> late_tags_free C ->
+  supported fl C h r = true -> acyclic h rk -> (rank_of rk r < limit)%nat ->
+  exists j r' M st',
+    encode fl limit h r = Some j /\ dec fl C limit st0 j = Some (r', st') /\
+    bisim true h r (dh st') r' M /\ sharing_preserved h M /\
+    (forall i i', In (i, i') M -> i' < nxt st').
+Proof.
+  intros Ha Hl Hs Hac Hr. apply supported_nodes in Hs as [Hn Hc].
+  destruct (enc_total fl C h rk Ha Hn Hac limit [] r Hc Hr) as (e & s' & He).
+  assert (I0 : Inv h (count_refs e) [] [] st0).
+  { constructor; simpl; try (intros; contradiction); intros; discriminate. }
+  destruct (enc_dec fl C h rk Ha Hl Hn Hac (count_refs e) limit [] r e s' He [] st0 I0
+                    (fun i Hi => Hi) limit (le_n _)) as (v' & M & st' & D & I1 & _ & V).
+  exists (render fl (count_refs e) e), v', M, st'.
+  unfold encode. rewrite He. repeat split; auto.
+  - exact (inv_node _ _ _ _ _ I1).
+  - exact (inv_inj _ _ _ _ _ I1).
+  - exact (inv_fun _ _ _ _ _ I1).
+  - exact (inv_lt _ _ _ _ _ I1).
+Qed.
